@@ -59,6 +59,14 @@ def attribute_errors(out):
         if prev and prev[-1][2] == "dm":
             by_type.setdefault(prev[-1][1], b.strip()[:1500])
             continue
+        # knock-on error at the dispatch arm of this type's derive_more twin (the impl exists but its bounds
+        # cannot be met, or there is none)
+        src_lines = txt.split("\n")
+        if 0 < ln <= len(src_lines):
+            dm_arm = re.search(r"\(Module::Dm, (\d+)\) =>", src_lines[ln - 1])
+            if dm_arm:
+                by_type.setdefault(int(dm_arm.group(1)), b.strip()[:1500])
+                continue
         # knock-on error outside the module: "`dm::X` doesn't implement `Debug`" (the derive produced no impl)
         m = re.search(r"`dm::((?:r#)?\w+)(?:<[^`]*>)?` doesn't implement `Debug`", b)
         if m and m.group(1) in names:
